@@ -5400,9 +5400,16 @@ impl<Front: SocketHandler> ConnectionH2<Front> {
                 }));
             }
 
-            kawa.push_block(kawa::Block::Chunk(kawa::Chunk {
-                data: kawa::Store::Slice(slice),
-            }));
+            // (an empty DATA frame, usually the one that only carries
+            // END_STREAM, adds no chunk: a zero-length block in `out` is
+            // offered to the socket as a zero-length slice, the HTTP/1.1 writer
+            // takes the resulting 0-byte write for a socket that is full and
+            // yields before it notices that the response is complete)
+            if content_len > 0 {
+                kawa.push_block(kawa::Block::Chunk(kawa::Chunk {
+                    data: kawa::Store::Slice(slice),
+                }));
+            }
 
             if kawa.body_size == kawa::BodySize::Chunked && content_len > 0 {
                 kawa.push_block(kawa::Block::Flags(kawa::Flags {
